@@ -75,7 +75,10 @@ def ob_fault_history(ex, kinds, U=2, HU=2, faults=1):
         w = sw.iw
         progs, infos, hashes = [], [], {}
         for i, kd in enumerate(kinds):
-            name, fn, args, info = S.PROGS[kd](ex, sw, st, i)
+            pr = S.PROGS[kd](ex, sw, st, i)
+            name, fn, args, info = pr[:4]
+            if len(pr) > 4:
+                st = pr[4]    # the program's set-up ran real code (faults are not injected there)
             progs.append((fn, args))
             infos.append(info)
             if kd == "put":
